@@ -461,7 +461,11 @@ macro_rules! impl_cache_processor {
                         Ok(())
                     }
                     $item::Delete { key, conflict } => {
-                        self.policy.remove(&key); // deals with metrics updates.
+                        // The index may be held by a different key (same index hash, other conflict
+                        // hash): that entry stays resident, so its charge is not ours to release.
+                        if !self.store.held_by_other(&key, conflict) {
+                            self.policy.remove(&key); // deals with metrics updates.
+                        }
                         if let Some(sitem) = self.store.try_remove(&key, conflict)? {
                             self.callback.on_exit(Some(sitem.value.into_inner()));
                         }
